@@ -26,6 +26,8 @@ mod c08;
 mod c18;
 mod c17;
 mod e01;
+mod e03;
+mod e02;
 mod c05;
 
 #[global_allocator]
@@ -64,6 +66,8 @@ fn props() -> Vec<Prop> {
         Prop { id: "C17", run: c17::run, gen: c17::gen },
         Prop { id: "C05", run: c05::run, gen: c05::gen },
         Prop { id: "E01", run: e01::run, gen: e01::gen },
+        Prop { id: "E03", run: e03::run, gen: e03::gen },
+        Prop { id: "E02", run: e02::run, gen: e02::gen },
     ]
 }
 
